@@ -227,6 +227,11 @@ func SliceArgs(content string) (expr string, err error) {
 		}
 		if hasCodeBetweenEndAndBrace {
 			to = int(decl.Rbrace) - 1
+			// The padding in front of the closing brace is not part of the
+			// expression (a trailing newline is kept, it may end a // comment).
+			for to > from && (src[to-1] == ' ' || src[to-1] == '\t') {
+				to--
+			}
 		}
 		return false
 	})
